@@ -226,6 +226,29 @@ def gen_config(configs, rng, hint=None):
     return cfg
 
 
+def _const_bounds(preds, name):
+    """[lo, hi] asserted for `name` by predicates of the form  name <op> literal"""
+    lo = hi = None
+    for p in preds:
+        if not isinstance(p, LoopIR.BinOp) or p.op not in ("<", "<=", ">", ">="):
+            continue
+        l, r, op = p.lhs, p.rhs, p.op
+        if isinstance(r, LoopIR.Read) and isinstance(l, LoopIR.Const):
+            l, r = r, l
+            op = {"<": ">", "<=": ">=", ">": "<", ">=": "<="}[op]
+        if not (isinstance(l, LoopIR.Read) and l.name == name and not l.idx and isinstance(r, LoopIR.Const) and isinstance(r.val, int)):
+            continue
+        if op == ">=":
+            lo = r.val if lo is None else max(lo, r.val)
+        elif op == ">":
+            lo = r.val + 1 if lo is None else max(lo, r.val + 1)
+        elif op == "<=":
+            hi = r.val if hi is None else min(hi, r.val)
+        else:
+            hi = r.val - 1 if hi is None else min(hi, r.val - 1)
+    return lo, hi
+
+
 def gen_input(proc, rng, extra_procs=(), data_mode=None, tries=200, size_cap=8, boundary=False):
     """Returns an InputSpec satisfying proc.preds, or None.
 
@@ -249,7 +272,15 @@ def gen_input(proc, rng, extra_procs=(), data_mode=None, tries=200, size_cap=8, 
                     v = rng.choice(pool)
                 env[a.name] = v
             elif isinstance(t, (T.Index, T.Int)):
-                env[a.name] = rng.choice(_IDX_POOL)
+                lo_b, hi_b = _const_bounds(ctl_preds, a.name)
+                if lo_b is not None and hi_b is not None and lo_b <= hi_b:
+                    # the asserted interval: its end points first, then anything inside
+                    if boundary and rng.random() < 0.7:
+                        env[a.name] = rng.choice([lo_b, hi_b, lo_b, min(lo_b + 1, hi_b)])
+                    else:
+                        env[a.name] = rng.randint(lo_b, hi_b)
+                else:
+                    env[a.name] = rng.choice(_IDX_POOL)
             elif isinstance(t, T.Stride):
                 env[a.name] = rng.choice([1, 2, 3])
             elif isinstance(t, T.Bool):
